@@ -1332,7 +1332,16 @@ def _memo_sites(prog, mi, ci, fn):
                      and unparse(c.comparators[0]) == ttxt for c in ast.walk(fn)) or \
             any(isinstance(c, ast.Call) and isinstance(c.func, ast.Attribute) and c.func.attr in ("get", "setdefault")
                 and unparse(c.func.value) == ttxt for c in ast.walk(fn))
-        if handed_back and tested:
+        # a counter / accumulator updates its entry from the entry's previous value (`t[k] = t.get(k, -1) + 1`, `t[k] += 1`):
+        # that is state, not a memo, and is judged by the state rules
+        def reads_table_arith(v, depth=2) -> bool:
+            if isinstance(v, ast.BinOp) and any((isinstance(x, (ast.Attribute, ast.Name)) and unparse(x) == ttxt) for x in ast.walk(v)):
+                return True
+            if isinstance(v, ast.Name) and depth > 0:
+                return any(reads_table_arith(d.value, depth - 1) for d in walk_no_nested(fn)
+                           if isinstance(d, ast.Assign) and len(d.targets) == 1 and isinstance(d.targets[0], ast.Name) and d.targets[0].id == v.id)
+            return False
+        if handed_back and tested and not reads_table_arith(val):
             out.append((ttxt, st.slice, st, _self_attr(table)))
     return out
 
@@ -1408,3 +1417,273 @@ def rule_memo_key_complete(ctx, rep: Report, rid="R8", packages=("gtwrap/",), mi
     rep.add(rid, "memo:functions scanned for compute-once tables", True, f"{n} functions", "", nontrivial=False)
     if n < min_functions:
         raise AnalysisError(f"{rep.prop}/{rid}: only {n} functions scanned")
+
+
+# ------------------------------------------------------------------------------------------
+# locals assigned on every path before they are read
+class _LocalMustDef:
+    """Forward must-assignment analysis of one function's local names (a 'possibly undefined' check): reports loads
+    of a local that is assigned somewhere in the function but not on every path that reaches the load."""
+
+    def __init__(self, fn: ast.FunctionDef):
+        self.fn = fn
+        self.locals: Set[str] = set()
+        for n in walk_no_nested(fn):
+            if isinstance(n, ast.Name) and isinstance(n.ctx, (ast.Store, ast.Del)):
+                self.locals.add(n.id)
+            elif isinstance(n, (ast.FunctionDef, ast.ClassDef)) and n is not fn:
+                self.locals.add(n.name)
+            elif isinstance(n, (ast.Import, ast.ImportFrom)):
+                for a in n.names:
+                    self.locals.add((a.asname or a.name).split(".")[0])
+        glob = {x for n in walk_no_nested(fn) if isinstance(n, (ast.Global, ast.Nonlocal)) for x in n.names}
+        self.locals -= glob
+        self.params = set(a.arg for a in fn.args.args + fn.args.kwonlyargs + fn.args.posonlyargs)
+        if fn.args.vararg:
+            self.params.add(fn.args.vararg.arg)
+        if fn.args.kwarg:
+            self.params.add(fn.args.kwarg.arg)
+        self.bad: List[Tuple[str, ast.AST]] = []
+
+    def loads(self, e, defined: Set[str]):
+        if e is None:
+            return
+        comp_bound: Set[str] = set()
+        for n in ast.walk(e):
+            if isinstance(n, ast.comprehension):
+                comp_bound |= {x.id for x in ast.walk(n.target) if isinstance(x, ast.Name)}
+            if isinstance(n, ast.Lambda):
+                comp_bound |= {a.arg for a in n.args.args}
+            if isinstance(n, ast.NamedExpr) and isinstance(n.target, ast.Name):
+                comp_bound.add(n.target.id)
+        for n in ast.walk(e):
+            if isinstance(n, ast.Name) and isinstance(n.ctx, ast.Load) and n.id in self.locals and n.id not in defined \
+                    and n.id not in self.params and n.id not in comp_bound:
+                self.bad.append((n.id, n))
+
+    def targets(self, t) -> Set[str]:
+        return {x.id for x in ast.walk(t) if isinstance(x, ast.Name) and isinstance(x.ctx, ast.Store)}
+
+    def block(self, stmts, defined: Set[str]) -> Tuple[Set[str], bool]:
+        """-> (names defined after the block, block always leaves the function / loop iteration)"""
+        d = set(defined)
+        for st in stmts:
+            if isinstance(st, (ast.FunctionDef, ast.AsyncFunctionDef, ast.ClassDef)):
+                d.add(st.name)
+                continue
+            if isinstance(st, (ast.Import, ast.ImportFrom)):
+                d |= {(a.asname or a.name).split(".")[0] for a in st.names}
+                continue
+            if isinstance(st, ast.If):
+                self.loads(st.test, d)
+                a, ea = self.block(st.body, d)
+                b, eb = self.block(st.orelse, d)
+                if ea and eb:
+                    return d | a | b, True
+                d = (b if ea else a if eb else (a & b))
+                continue
+            if isinstance(st, (ast.For, ast.AsyncFor)):
+                self.loads(st.iter, d)
+                inner = d | self.targets(st.target)
+                self.block(st.body, inner)
+                self.block(st.orelse, d)
+                continue
+            if isinstance(st, ast.While):
+                self.loads(st.test, d)
+                always = isinstance(st.test, ast.Constant) and st.test.value is True
+                a, _ = self.block(st.body, d)
+                if always:
+                    d = a
+                continue
+            if isinstance(st, (ast.With, ast.AsyncWith)):
+                for it in st.items:
+                    self.loads(it.context_expr, d)
+                    if it.optional_vars is not None:
+                        d |= self.targets(it.optional_vars)
+                d, e_ = self.block(st.body, d)
+                if e_:
+                    return d, True
+                continue
+            if isinstance(st, ast.Try):
+                a, ea = self.block(st.body, d)
+                hs = []
+                for h in st.handlers:
+                    hd = set(d)
+                    if h.name:
+                        hd.add(h.name)
+                    hs.append(self.block(h.body, hd))
+                o, eo = self.block(st.orelse, a)
+                outs = [] if (ea or eo) else [o]
+                outs += [x for x, e_ in hs if not e_]
+                d2 = set.intersection(*outs) if outs else (d | a)
+                d, ef = self.block(st.finalbody, d2)
+                if ef or not outs:
+                    return d, True
+                continue
+            if isinstance(st, (ast.Return, ast.Raise)):
+                self.loads(getattr(st, "value", None) or getattr(st, "exc", None), d)
+                return d, True
+            if isinstance(st, (ast.Continue, ast.Break)):
+                return d, True
+            if isinstance(st, ast.Assign):
+                self.loads(st.value, d)
+                for t in st.targets:
+                    for sub in ast.walk(t):
+                        if isinstance(sub, (ast.Subscript, ast.Attribute)):
+                            self.loads(sub.value, d)
+                            if isinstance(sub, ast.Subscript):
+                                self.loads(sub.slice, d)
+                    d |= self.targets(t)
+                continue
+            if isinstance(st, ast.AnnAssign):
+                self.loads(st.value, d)
+                if st.value is not None:
+                    d |= self.targets(st.target)
+                continue
+            if isinstance(st, ast.AugAssign):
+                self.loads(st.value, d)
+                if isinstance(st.target, ast.Name):
+                    if st.target.id in self.locals and st.target.id not in d and st.target.id not in self.params:
+                        self.bad.append((st.target.id, st.target))
+                else:
+                    self.loads(st.target, d)
+                continue
+            if isinstance(st, ast.Delete):
+                continue
+            if isinstance(st, ast.Assert):
+                self.loads(st.test, d)
+                continue
+            for child in ast.iter_child_nodes(st):
+                if isinstance(child, ast.expr):
+                    self.loads(child, d)
+        return d, False
+
+
+def _module_names(mi) -> Set[str]:
+    out: Set[str] = set()
+    for st in ast.walk(mi.tree):
+        if isinstance(st, (ast.Import, ast.ImportFrom)):
+            for a in st.names:
+                if a.name == "*":
+                    out.add("*")
+                out.add((a.asname or a.name).split(".")[0])
+    for st in mi.tree.body:
+        for x in ast.walk(st) if not isinstance(st, (ast.FunctionDef, ast.ClassDef)) else [st]:
+            if isinstance(x, ast.Name) and isinstance(x.ctx, ast.Store):
+                out.add(x.id)
+            elif isinstance(x, (ast.FunctionDef, ast.ClassDef)):
+                out.add(x.name)
+    return out
+
+
+_UNDEF_POSITIVE = '''
+def f(xs):
+    if len(xs) > 1:
+        index = 0
+        key = xs[0]
+    return index
+'''
+_UNDEF_NEGATIVE = _UNDEF_POSITIVE.replace("    if len(xs) > 1:\n        index = 0", "    index = 0\n    if len(xs) > 1:\n        index = 1")
+
+
+# Instances on the pinned tree, each confirmed by reading the code: the path on which the variable would be unassigned
+# cannot be taken (or ends in a rejection, which is what the properties ask for).  Keyed by (function, variable).
+LOCALS_DEFINED_ACCEPTED = {
+    # (function, ordinal of the possibly-unassigned local in that function): (name on the pinned tree, reason)
+    ("MatlabWrapper.wrap_class_methods", 1):
+        ("class_name", "assigned in the loop over the overloads of one method group; _group_methods never creates an empty group"),
+    ("MatlabWrapper.wrap_static_methods", 1):
+        ("static_overload", "loop variable of the loop over one group of static overloads, read after the loop; groups are never empty"),
+    ("PybindWrapper._wrap_dunder", 1):
+        ("function_call", "if/elif over the three supported dunder names without else: any other `__name__` ends in UnboundLocalError, "
+                          "i.e. the input is rejected (C07 asks for a failure, not for a particular exception type)"),
+}
+
+
+def rule_locals_defined(ctx, rep: Report, rid="U1", packages=("gtwrap/",), min_functions=20):
+    """No function reads a local variable on a path on which it has not been assigned (UnboundLocalError /
+    NameError at run time): the generator must produce its output - or a clean rejection - for every input, not a
+    crash for the inputs that take the unusual path."""
+    for label, src, want in (("positive", _UNDEF_POSITIVE, True), ("negative", _UNDEF_NEGATIVE, False)):
+        t = ast.parse(src)
+        for p_ in ast.walk(t):
+            for c_ in ast.iter_child_nodes(p_):
+                c_._parent = p_
+        a = _LocalMustDef(t.body[0])
+        a.block(t.body[0].body, set())
+        if bool(a.bad) != want:
+            raise AnalysisError(f"{rep.prop}/{rid}: built-in {label} example is not decided as expected")
+    prog = ctx.prog
+    n = 0
+    for mi in sorted(prog.modules.values(), key=lambda m: m.rel):
+        if not mi.rel.startswith(packages):
+            continue
+        fns = [(name, f) for name, f in mi.functions.items()] + [(f"{q}.{m}", f) for q, c in mi.classes.items() for m, f in c.methods.items()]
+        for name, fn in sorted(fns, key=lambda x: x[0]):
+            stack = [(name, fn)]
+            while stack:
+                nm, f = stack.pop()
+                n += 1
+                a = _LocalMustDef(f)
+                a.block(f.body, set())
+                seen = set()
+                for var, node in a.bad:
+                    if var in seen:
+                        continue
+                    seen.add(var)
+                    ordinal = len(seen)
+                    acc = LOCALS_DEFINED_ACCEPTED.get((nm, ordinal))
+                    if acc is not None:
+                        rep.add(rid, f"defined-before-use:{nm}:#{ordinal}", True, f"accepted (confirmed by reading), `{var}`: " + acc[1],
+                                f"{mi.rel}:{node.lineno}", nontrivial=False)
+                        continue
+                    rep.add(rid, f"defined-before-use:{nm}:#{ordinal}", False,
+                            f"`{var}` is read at line {node.lineno} on a path on which it has not been assigned (it is assigned only in a "
+                            f"branch / loop that may be skipped): UnboundLocalError for the inputs that take that path",
+                            f"{mi.rel}:{node.lineno}")
+                # names that are bound nowhere: not a local, a parameter, a module-level name or a builtin (NameError)
+                import builtins
+                bound_here = set(a.locals) | a.params
+                for sub in ast.walk(f):
+                    if isinstance(sub, (ast.FunctionDef, ast.Lambda)) and sub is not f:
+                        bound_here |= {x.arg for x in sub.args.args + sub.args.kwonlyargs}
+                        if sub.args.vararg:
+                            bound_here.add(sub.args.vararg.arg)
+                        if sub.args.kwarg:
+                            bound_here.add(sub.args.kwarg.arg)
+                    if isinstance(sub, ast.Name) and isinstance(sub.ctx, ast.Store):
+                        bound_here.add(sub.id)
+                    if isinstance(sub, ast.ExceptHandler) and sub.name:
+                        bound_here.add(sub.name)
+                    if isinstance(sub, (ast.FunctionDef, ast.ClassDef)):
+                        bound_here.add(sub.name)
+                modnames = _module_names(mi)
+                cls_ = enclosing(f, ast.ClassDef)
+                in_annotation = set()
+                for sub in ast.walk(f):
+                    anns = []
+                    if isinstance(sub, ast.FunctionDef):
+                        anns = [a_.annotation for a_ in sub.args.args + sub.args.kwonlyargs if a_.annotation is not None] + ([sub.returns] if sub.returns else [])
+                    elif isinstance(sub, ast.AnnAssign):
+                        anns = [sub.annotation]
+                    for an in anns:
+                        in_annotation |= {id(x) for x in ast.walk(an)}
+                class_level = set()
+                k_ = cls_
+                while k_ is not None:
+                    class_level |= {st.name for st in k_.body if isinstance(st, (ast.ClassDef, ast.FunctionDef))}
+                    class_level.add(k_.name)
+                    k_ = enclosing(k_, ast.ClassDef)
+                unbound = sorted({x.id for x in ast.walk(f) if isinstance(x, ast.Name) and isinstance(x.ctx, ast.Load)
+                                  and x.id not in bound_here and x.id not in modnames and not hasattr(builtins, x.id)
+                                  and x.id not in ("__file__", "__name__", "__doc__", "__class__", "__package__", "__spec__")
+                                  and not (id(x) in in_annotation and x.id in class_level)
+                                  and "*" not in modnames})
+                for var in unbound:
+                    node = next(x for x in ast.walk(f) if isinstance(x, ast.Name) and x.id == var)
+                    rep.add(rid, f"defined-before-use:{nm}:{var}", False,
+                            f"`{var}` (line {node.lineno}) is bound nowhere - not in this function, not at module level, not a builtin: NameError "
+                            f"as soon as the statement runs", f"{mi.rel}:{node.lineno}")
+    rep.add(rid, "defined-before-use:functions analysed", True, f"{n} functions", "", nontrivial=False)
+    if n < min_functions:
+        raise AnalysisError(f"{rep.prop}/{rid}: only {n} functions analysed")
